@@ -25,6 +25,8 @@ def check(chk, thorough=False):
     chk.run('C06.l', 'R-SCHEMA', 'the reassembled primary block leaves with a CRC computed over its new content: update_crc recomputes, it never keeps a value (= C08.d)', lambda ob: __import__('sa.props.c08', fromlist=['c08d']).c08d(tree, ob), floor=6)
     chk.run('C06.m', 'R-FRESH', 'the reassembly table belongs to the application object of one agent (created per instance): two agents in one process do not share reassemblies', lambda ob: __import__('sa.props.common', fromlist=['per_instance_state']).per_instance_state(tree, ob, 'bp/app/fragment.py', ['Fragment']), floor=1)
     chk.run('C06.n', 'R-NOPATH', 'every fragment admitted to reassembly is spliced in (no way from the table lookup to the exit around the splice): overlapping fragments lose nothing', lambda ob: c06n(tree, ob), floor=1)
+    chk.run('C06.o', 'R-FLOW', 'every fragment a CL announces reaches the agent: the adaptors pop exactly the announced transfer and hand it on (a reopened session numbers its transfers from 1 again) (= C10.q)', lambda ob: __import__('sa.props.c11', fromlist=['adaptor_rx_fidelity']).adaptor_rx_fidelity(tree, ob), floor=2)
+    chk.run('C06.p', 'R-GUARD', 'fragments addressed to the node itself are marked for delivery (and so reach reassembly): the administrative routing step looks at the destination only', lambda ob: __import__('sa.props.c10', fromlist=['admin_route_by_destination_only']).admin_route_by_destination_only(tree, ob), floor=1)
     chk.run('C06.e', 'R-GUARD', 'first_frag only from offset 0; the synthesized bundle copies its primary and blocks, clears the fragment flag and replaces only the payload data', lambda ob: c06e(tree, ob), floor=5)
 
 
